@@ -927,21 +927,29 @@ where
     T: Hash + Eq,
     str: Equivalent<T>,
 {
+    // Look up and validate the positions before modifying the set, so that an error leaves the
+    // set unchanged.
+    let after_idx = after
+        .map(|rule_id| set.get_index_of(rule_id).ok_or(InsertPushRuleError::UnknownRuleId))
+        .transpose()?;
+    let before_idx = before
+        .map(|rule_id| set.get_index_of(rule_id).ok_or(InsertPushRuleError::UnknownRuleId))
+        .transpose()?;
+
+    if let (Some(after_idx), Some(before_idx)) = (after_idx, before_idx) {
+        if before_idx <= after_idx {
+            return Err(InsertPushRuleError::BeforeHigherThanAfter);
+        }
+    }
+
     let (from, replaced) = set.replace_full(rule);
 
     let mut to = default_position;
 
-    if let Some(rule_id) = after {
-        let idx = set.get_index_of(rule_id).ok_or(InsertPushRuleError::UnknownRuleId)?;
+    if let Some(idx) = after_idx {
         to = idx + 1;
     }
-    if let Some(rule_id) = before {
-        let idx = set.get_index_of(rule_id).ok_or(InsertPushRuleError::UnknownRuleId)?;
-
-        if idx < to {
-            return Err(InsertPushRuleError::BeforeHigherThanAfter);
-        }
-
+    if let Some(idx) = before_idx {
         to = idx;
     }
 
